@@ -1125,6 +1125,23 @@ def is_nl_pattern(I, st, v):
     return isinstance(v, VInt) and v.t.is_const() and v.t.c == 10
 
 
+def m_str_contains(I, st, args, c, dest, target, span):
+    parts = str_parts(I, st, args[0])
+    if parts is None:
+        return NotImplemented
+    if not is_nl_pattern(I, st, args[1]):
+        raise Undecided("str::contains with a pattern other than the line-break character")
+    for p in parts:
+        if p[0] == "nl" or (p[0] == "lit" and "\n" in p[1]):
+            return VBool(True)
+        if p[0] == "any":
+            fork_any(I, st, p[1])
+    return VBool(False)
+
+
+wrap(["core::str::<impl str>::contains"], m_str_contains)
+
+
 def m_split_inclusive(I, st, args, c, dest, target, span):
     parts = str_parts(I, st, args[0])
     if parts is None:
